@@ -25,8 +25,13 @@ RULE = (
     "[-40, 4]) and output kernels scaled by 0 / 1 / 30. Non-trivial = batch shape other than (2,), or action dim "
     ">= 2, or a clipped log-variance (softmax: batch shape other than (2,) or extreme logits). greedy: non-trivial "
     "= the queried Q row is not constant. eps_freq / *_freq: every case is a frequency experiment over >= 2000 draws. "
-    "run_<dqn variant>: 1000-1200 steps, warm-up 0/10/25/40 % of the budget, non-trivial = at least 100 steps after "
-    "warm-up and epsilon-decay phase; run_<tabular>: three runs per case (epsilon 0, 1, intermediate). Distinct = distinct canonical case."
+    "run_<dqn variant>: a history of one or two training calls: a fresh run (1000-1200 steps; 100-120 in the 'early' "
+    "pattern), warm-up 0/10/25/40 % of that budget, and in 7 of 8 patterns (dqn: 3 of 4) its documented continuation on "
+    "the same objects with global_step = the reported step under an extended total_timesteps, so that the continuing "
+    "call starts at 30/40/50/60 % of its budget (beyond the decay phase) or at 5/8 % (inside it); the continuation runs "
+    "to the budget (<= 1200 further steps) or is ended by total_episodes after ~300 steps; expected exploration "
+    "probabilities are those of linear_schedule(total_timesteps of the call) at the absolute step; non-trivial = at "
+    "least 100 executed steps of one call after warm-up and epsilon-decay phase; run_<tabular>: three runs per case (epsilon 0, 1, intermediate). Distinct = distinct canonical case."
 )
 ASSUMPTIONS = [
     "float32 arithmetic; references in float64 from the float32 network outputs; log-density tolerances scale with "
@@ -34,7 +39,10 @@ ASSUMPTIONS = [
     "statistical clauses use exact binomial / Poisson-binomial tails with false-alarm probability <= 1e-9 per "
     "comparison and are deterministic for a given case",
     "DQN-family runs: the documented schedule is epsilon 1.0 -> 0.1 linearly over the first 10% of total_timesteps, "
-    "random actions before learning_starts; the API offers no way to configure an epsilon end of 0, so the "
+    "random actions before learning_starts, both counted in absolute steps: a call that continues a run (global_step > 0, "
+    "'Global step to start training from') uses epsilon = linear_schedule(total_timesteps)[step] like a call that "
+    "reaches that step from 0 (learning_starts never exceeds the continuation point in the generated histories, so its "
+    "reading on continuation is not exercised); the API offers no way to configure an epsilon end of 0, so the "
     "'exactly 0 non-greedy actions' clause is checked on the tabular loops (epsilon=0, learning rate 0)",
     "tabular runs use learning rate 0 (Monte Carlo: visit counts 1e30) so that the current estimate is the initial "
     "table at every step; the table returned by the run is compared bytewise to confirm it",
@@ -501,17 +509,52 @@ def _script(draw):
     return [[draw(st.integers(1, 12)), draw(st.sampled_from(["term", "trunc"]))] for _ in range(draw(st.integers(1, 4)))]
 
 
+# Continuation patterns of the run-level cases.  A case is a *history* of one or two training calls on the same
+# network / optimiser / buffer / environment: a fresh run of ``total`` steps and, optionally, the documented
+# continuation (same objects handed back in, ``global_step`` = the step the first call reported) under an extended
+# budget.  start_permille = global_step of the continuing call in thousandths of its own total_timesteps; cap = the
+# continuing call is ended through ``total_episodes`` after about that many steps (0: it runs to the extended budget).
+#   ("extend", 500, 0)    1000 -> 2000 steps, continuation beyond the decay phase, run to the end
+#   ("extend", s, 300)    continuation at 30-60 % of the budget, ~300 steps of it
+#   ("extend", 50|80, 300) continuation INSIDE the decay phase of the extended budget (budget x20 / x12.5)
+#   ("early", 0, 0)       100 fresh steps, continued to 1300: continuation inside the decay phase, run to the end
+CONT_PATTERNS = [["extend", 500, 0], ["extend", 300, 300], ["extend", 400, 300], ["extend", 600, 300],
+                 ["extend", 50, 300], ["extend", 80, 300], ["early", 0, 0], ["none", 0, 0]]
+# train_dqn has no episode limit: only the patterns that run to the end of the budget
+CONT_PATTERNS_DQN = [["extend", 500, 0], ["extend", 500, 0], ["early", 0, 0], ["none", 0, 0]]
+
+
+def _calls(case):
+    """[(total_timesteps, cap_steps)] of the training calls of a case (pure function of the case)."""
+    kind, permille, cap = case.get("cont", ["none", 0, 0])
+    total = case["total"]
+    if kind == "none":
+        return [(total, 0)]
+    if kind == "early":
+        return [(total // 10, 0), (total + 3 * (total // 10), 0)]
+    return [(total, 0), (int(round(total * 1000.0 / permille)), cap)]
+
+
 def dqn_run_cases(algo):
     @st.composite
     def cases(draw):
+        if algo == "dqn":
+            cont = draw(st.sampled_from(CONT_PATTERNS_DQN))
+        elif _QUICK():
+            cont = draw(st.sampled_from(CONT_PATTERNS))
+        else:
+            cont = draw(st.one_of(st.sampled_from(CONT_PATTERNS),
+                                  st.tuples(st.just("extend"), st.integers(20, 700), st.sampled_from([200, 300, 400]))
+                                  .map(list)))
         return {
             "algo": algo, "n_actions": draw(st.sampled_from([2, 3])),
             # 1000+ steps: the documented decay phase (10 %) and the window of the same length that
             # follows the warm-up hold >= 100 steps each, so a shifted / restarted / mis-scaled schedule
             # is many sigma away from the exact tails
             "total": draw(st.sampled_from([1000, 1200])), "seed": draw(st.integers(0, 1000)),
+            "cont": cont,
             "script": _script(draw), "env_seed": draw(gen.seeds()), "space_seed": draw(gen.seeds()),
-            # warm-up of 0 / 10 / 25 / 40 % of the budget (in thousandths of the budget)
+            # warm-up of 0 / 10 / 25 / 40 % of the (first) budget (in thousandths of that budget)
             "learning_starts_permille": 0 if algo == "dqn" else draw(st.sampled_from([250, 100, 400, 0])),
             "lr": draw(st.sampled_from([0.0, 0.05, 0.05, 0.05])), "q_seed": draw(gen.seeds()),
             "update_frequency": draw(st.sampled_from([1, 1, 4])),
@@ -524,6 +567,11 @@ def dqn_run_cases(algo):
 
 
 def _simplify_dqn(case):
+    cont = case.get("cont", ["none", 0, 0])
+    if cont[0] != "none":
+        yield dict(case, cont=["none", 0, 0])
+        if cont[0] == "extend" and cont[2] == 0 and case["algo"] != "dqn":
+            yield dict(case, cont=[cont[0], cont[1], 300])
     if case["lr"] != 0.0:
         yield dict(case, lr=0.0)
     if case["learning_starts_permille"] not in (0, 100):
@@ -553,8 +601,9 @@ def run_dqn_runs(case):
     from rl_blox.blox.replay_buffer import PrioritizedReplayBuffer, ReplayBuffer
     from vlib.envs import ScriptedEnv
 
-    na, total, algo = case["n_actions"], case["total"], case["algo"]
-    L = (case["learning_starts_permille"] * total) // 1000
+    na, algo = case["n_actions"], case["algo"]
+    calls = _calls(case)
+    L = (case["learning_starts_permille"] * calls[0][0]) // 1000  # <= 40 % of the first budget
     q_net = pn.make_mlp(3, na, [4], case["q_seed"], "tanh")  # tanh: no dead units, ties are improbable
     if algo == "dqn":
         q_target = None
@@ -562,6 +611,8 @@ def run_dqn_runs(case):
         q_target = nnx.clone(q_net)
     else:
         q_target = pn.make_mlp(3, na, [4], case["q_seed"] + 1, "tanh", pscale=3.0)
+    tgt = {"net": q_target}  # the target network in use (the one the last call returned)
+
     class RecordingDiscrete(gym.spaces.Discrete):
         """The env's action space, counting the random actions the loop asks for."""
 
@@ -588,80 +639,138 @@ def run_dqn_runs(case):
         n_max.append(int((qv == qv.max()).sum()))
         explored.append(space.n_sampled - seen[0])  # random actions requested since the previous step
         seen[0] = space.n_sampled
-        if q_target is not None:
-            qt = np.asarray(q_target(o))[0]
+        if tgt["net"] is not None:
+            qt = np.asarray(tgt["net"](o))[0]
             disagree.append(bool(set(np.flatnonzero(qt == qt.max())) != set(np.flatnonzero(qv == qv.max()))))
 
     env = ScriptedEnv(case["script"], seed=case["env_seed"], obs_dim=3, action_space=space, on_step=on_step)
     opt = nnx.Optimizer(q_net, optax.sgd(case["lr"]), wrt=nnx.Param)
-    kw = dict(batch_size=4, total_timesteps=total, gamma=0.9, seed=case["seed"], progress_bar=False)
     if algo == "dqn":
-        from rl_blox.algorithm.dqn import train_dqn
+        from rl_blox.algorithm.dqn import train_dqn as train
 
-        train_dqn(q_net, env, ReplayBuffer(50, discrete_actions=True), opt, **kw)
+        buffer = ReplayBuffer(50, discrete_actions=True)
+    elif algo == "nature_dqn":
+        from rl_blox.algorithm.nature_dqn import train_nature_dqn as train
+
+        buffer = ReplayBuffer(50, discrete_actions=True)
+    elif algo == "ddqn":
+        from rl_blox.algorithm.ddqn import train_ddqn as train
+
+        buffer = ReplayBuffer(50, discrete_actions=True)
     else:
-        kw.update(update_frequency=case["update_frequency"], target_update_frequency=case["target_update_frequency"],
-                  learning_starts=L, q_target_net=q_target)
-        if algo == "nature_dqn":
-            from rl_blox.algorithm.nature_dqn import train_nature_dqn
+        from rl_blox.algorithm.per import train_ddqn_per as train
 
-            train_nature_dqn(q_net, env, ReplayBuffer(50, discrete_actions=True), opt, **kw)
-        elif algo == "ddqn":
-            from rl_blox.algorithm.ddqn import train_ddqn
-
-            train_ddqn(q_net, env, ReplayBuffer(50, discrete_actions=True), opt, **kw)
-        else:
-            from rl_blox.algorithm.per import train_ddqn_per
-
-            train_ddqn_per(q_net, env, PrioritizedReplayBuffer(50, discrete_actions=True), opt, **kw)
+        buffer = PrioritizedReplayBuffer(50, discrete_actions=True)
+    # the history: a fresh call and, possibly, its documented continuation (same network, optimiser, buffer,
+    # environment and the returned target network; global_step = the step the previous call reported, a larger
+    # total_timesteps; the multi-task schedulers' way: seed + global_step, an episode limit ends the interval)
+    spans = []  # (first absolute step, one past the last executed step, total_timesteps, capped) per call
+    g = 0
+    for j, (total_j, cap) in enumerate(calls):
+        kw = dict(batch_size=4, total_timesteps=total_j, gamma=0.9, seed=case["seed"] + g, progress_bar=False)
+        if algo != "dqn":
+            kw.update(update_frequency=case["update_frequency"], target_update_frequency=case["target_update_frequency"],
+                      learning_starts=L, q_target_net=tgt["net"])
+        if j > 0:
+            kw["global_step"] = g
+        scripted = None
+        if cap:
+            # end the interval after the first episodes that hold >= cap steps (episode e + 1 is the first one
+            # of the call: every call resets the environment once more)
+            lens = [ln for ln, _ in env.script]
+            n_ep, scripted = 0, 0
+            while scripted < cap:
+                n_ep += 1
+                scripted += lens[(env.episode + n_ep) % len(lens)]
+            kw["total_episodes"] = n_ep
+        before = len(flags)
+        res = train(q_net, env, buffer, opt, **kw)
+        n_j = len(flags) - before
+        reported = getattr(res, "global_step", None)  # train_ddqn_per reports none
+        # step accounting is C11's subject; the exploration oracle needs the absolute step index of every action
+        if not cap and n_j != total_j - g:
+            return Outcome(labels=[algo, "excluded-step-count-differs"], nontrivial=False)
+        if cap and not (0 < n_j <= total_j - g):
+            return Outcome(labels=[algo, "excluded-step-count-differs"], nontrivial=False)
+        if reported is not None and int(reported) != g + n_j:
+            return Outcome(labels=[algo, "excluded-reported-step-differs"], nontrivial=False)
+        spans.append((g, g + n_j, total_j, bool(cap), scripted))
+        g += n_j
+        if algo != "dqn":
+            tgt["net"] = res.q_target_net
     n = len(flags)
-    if n != total:
-        # step accounting is C11's subject; the exploration oracle needs the step index of every action
-        return Outcome(labels=[algo, "excluded-step-count-differs"], nontrivial=False)
-    eps, tail_from = documented_epsilon(total, L)
     explored_a = np.asarray(explored)
+    flags_a = np.asarray(flags)
     # (a) per step: unless the loop asked the action space for a random action, the executed action
     #     maximises the live Q-network at the observation the agent was given
-    bad = np.flatnonzero((explored_a == 0) & np.asarray(flags))
+    bad = np.flatnonzero((explored_a == 0) & flags_a)
     check(bad.size == 0, f"{algo}.exploration.non_random_action_is_greedy_on_current_estimate",
           lambda: f"steps {bad[:8].tolist()} executed a non-maximising action without drawing a random one "
-                  f"(lr={case['lr']}, target_update_frequency={case['target_update_frequency']})")
+                  f"(lr={case['lr']}, target_update_frequency={case['target_update_frequency']}, calls={spans})")
     check(bool(np.all(explored_a <= 1)), f"{algo}.exploration.at_most_one_random_draw_per_step",
           lambda: f"{explored_a.max()} random draws in one step")
-    # (b) number of exploration decisions against the documented schedule, window by window (exact
-    #     Poisson-binomial tails, 1e-9 split over the windows): the warm-up, the rest of the decay phase,
-    #     the stretch of the same length that follows warm-up and decay (where a restarted or shifted
-    #     decay would show), and the constant tail
-    k_dec = int(total * 0.1)
-    cuts = sorted({0, L, min(max(k_dec, L), total), min(max(k_dec, L) + k_dec, total), total})
-    windows = [(a, b) for a, b in zip(cuts[:-1], cuts[1:]) if b > a] + [(0, total)]
-    for a, b in windows:
+    # (b) number of exploration decisions against the documented schedule -- epsilon = linear_schedule(
+    #     total_timesteps) of the call at the ABSOLUTE step -- window by window (exact Poisson-binomial tails,
+    #     1e-9 split over the windows): the warm-up, the rest of the decay phase, the stretch of the same length
+    #     that follows warm-up and decay (where a restarted or shifted decay would show), the constant tail; in a
+    #     continuing call also the first 25 / 50 / 100 / 200 steps after the continuation point
+    eps = np.zeros(n)
+    windows = []  # (a, b, call index, clause)
+    tails = []
+    for j, (a0, b0, total_j, capped, _) in enumerate(spans):
+        eps_j, tail_j = documented_epsilon(total_j, L)
+        eps[a0:b0] = eps_j[a0:b0]
+        k_dec = int(total_j * 0.1)
+        after = max(k_dec, L, a0)
+        cuts = sorted({min(max(c, a0), b0) for c in (a0, L, max(k_dec, L), after + k_dec, b0)})
+        clause = "random_action_count_matches_schedule" if j == 0 else \
+            "continued_run.random_action_count_matches_absolute_step_schedule"
+        w_j = [(a, b) for a, b in zip(cuts[:-1], cuts[1:]) if b > a] + [(a0, b0)]
+        if j > 0:
+            w_j += [(a0, min(a0 + w, b0)) for w in (25, 50, 100, 200)]
+        for a, b in dict.fromkeys(w_j):
+            windows.append((a, b, j, "warmup_steps_are_all_random" if b <= L else clause))
+        tails.append((max(tail_j, a0), b0))
+    for a, b, j, clause in windows:
         lo_e, hi_e = binomtail.interval(eps[a:b], 1e-9 / len(windows))
         k_e = int((explored_a[a:b] > 0).sum())
-        clause = "warmup_steps_are_all_random" if b <= L else "random_action_count_matches_schedule"
+        a0, b0, total_j = spans[j][:3]
         check(lo_e <= k_e <= hi_e, f"{algo}.exploration.{clause}",
-              lambda: f"{k_e} random actions in steps [{a},{b}) of {total} (learning_starts={L}, decay over the first "
-                      f"{k_dec} steps): the documented schedule admits [{lo_e},{hi_e}]")
+              lambda: f"{k_e} random actions in steps [{a},{b}) of a call with total_timesteps={total_j}, global_step={a0} "
+                      f"(executed [{a0},{b0}), learning_starts={L}, decay over the first {int(total_j * 0.1)} steps): "
+                      f"the documented schedule admits [{lo_e},{hi_e}], expected {eps[a:b].sum():.1f}; calls={calls}")
     # a uniformly random action is non-greedy with probability 1 - (number of maximisers) / n_actions
     ps = eps * (1.0 - np.asarray(n_max, dtype=np.float64) / na)
-    flags_a = np.asarray(flags)
-    k_tail = int(flags_a[tail_from:].sum())
-    hi_tail = binomtail.upper_bound(ps[tail_from:], 1e-9)
-    check(k_tail <= hi_tail, f"{algo}.exploration.nongreedy_after_decay_within_schedule",
-          lambda: f"{k_tail} non-greedy actions in the {total - tail_from} steps after the epsilon-decay phase "
-                  f"(epsilon 0.1 there, {na} actions): admissible at most {hi_tail}")
+    for a, b in tails:
+        if b <= a:
+            continue
+        k_tail = int(flags_a[a:b].sum())
+        hi_tail = binomtail.upper_bound(ps[a:b], 1e-9 / len(tails))
+        check(k_tail <= hi_tail, f"{algo}.exploration.nongreedy_after_decay_within_schedule",
+              lambda: f"{k_tail} non-greedy actions in the steps [{a},{b}) after the epsilon-decay phase "
+                      f"(epsilon 0.1 there, {na} actions): admissible at most {hi_tail}; calls={calls}")
     lo_all, hi_all = binomtail.interval(ps, 1e-9)
     k_all = int(flags_a.sum())
     check(k_all <= hi_all, f"{algo}.exploration.nongreedy_total_within_schedule",
-          lambda: f"{k_all} non-greedy actions in {total} steps, admissible at most {hi_all}")
+          lambda: f"{k_all} non-greedy actions in {n} steps, admissible at most {hi_all}; calls={calls}")
     check(k_all >= lo_all, f"{algo}.exploration.nongreedy_total_not_below_schedule",
-          lambda: f"{k_all} non-greedy actions in {total} steps, admissible at least {lo_all}")
+          lambda: f"{k_all} non-greedy actions in {n} steps, admissible at least {lo_all}; calls={calls}")
     labels = [algo, "lr=0" if case["lr"] == 0 else "lr>0", f"lower-bound={'>0' if lo_all > 0 else '0'}",
               f"warmup={case['learning_starts_permille'] // 10}%"]
     labels.append("ties-seen" if max(n_max) > 1 else "unique-maximiser")
     if disagree:
-        labels.append("target-greedy-differs-somewhere" if any(disagree[tail_from:]) else "target-greedy-same")
-    return Outcome(labels=labels, nontrivial=(total - tail_from) >= 100, fp=case)
+        labels.append("target-greedy-differs-somewhere" if any(any(disagree[a:b]) for a, b in tails) else "target-greedy-same")
+    if len(spans) == 1:
+        labels.append("fresh-run-only")
+    else:
+        a0, b0, total_j, capped, scripted = spans[1]
+        labels.append("continued")
+        labels.append("continued-inside-decay-phase" if a0 < int(total_j * 0.1) else "continued-beyond-decay-phase")
+        labels.append(f"continued-at={round(100.0 * a0 / total_j)}%-of-budget")
+        labels.append("continuation-ended-by-episode-limit" if capped else "continuation-runs-to-budget")
+        if capped and b0 - a0 != scripted:
+            labels.append("episode-limit-step-count-differs-from-script")
+    return Outcome(labels=labels, nontrivial=any(b - a >= 100 for a, b in tails), fp=case)
 
 
 EPS_TOTALS = {"zero": 40, "one": 40, "mid": 300}
@@ -764,7 +873,8 @@ def _run_subchecks():
     for algo in ["dqn", "nature_dqn", "ddqn", "ddqn_per"]:
         out.append(SubCheck("run_" + algo, dqn_run_cases(algo), run_dqn_runs, quick=4, thorough=60, cost=10.0,
                             shards=2, shards_thorough=4, shrink=False, suppress_too_slow=True, simplify=_simplify_dqn,
-                            rule=">= 100 steps after warm-up and epsilon-decay phase"))
+                            rule=">= 100 executed steps of one call after warm-up and epsilon-decay phase; 7 of 8 case patterns "
+                                 "(dqn: 3 of 4) continue the run with global_step > 0"))
     for algo in ["q_learning", "sarsa", "double_q", "dynaq", "monte_carlo"]:
         out.append(SubCheck("run_" + algo, tabular_run_cases(algo), run_tabular_runs, quick=3, thorough=60, cost=9.0,
                             shards=1, shards_thorough=4, shrink=False, suppress_too_slow=True,
